@@ -194,7 +194,7 @@ def excerpt_mismatch(msg, inp, loc):
             return None
         shown_no, shown_text, caret_col = int(x.group(1)), x.group(2) or "", len(m.group(1))
         src = inp.split("\n")
-        if not (1 <= loc.line <= len(src)):
+        if not (isinstance(loc.line, int) and isinstance(loc.column, int) and 1 <= loc.line <= len(src)):
             return None
         want_text = src[loc.line - 1].rstrip("\r")
         if shown_no != loc.line:
@@ -264,15 +264,6 @@ def check(ctx, gmon, g, case, name, kind, parser, inp, e, prefix="", via_file=Fa
         ctx.count("lr.resolved_errors_seen")
         return
     loc = err.location
-    if isinstance(inp, str) and not via_file and loc.start_position is not None and loc.start_position < len(inp):
-        # (at the end of the input the excerpt shows the last line there is, which after a
-        # trailing newline is not the - empty - line the position belongs to: not judged)
-        bad = excerpt_mismatch(msg, inp, loc)
-        if bad:
-            ctx.violation("rendered-excerpt-does-not-show-the-position", case, bad)
-            return
-        if bad is not None:
-            ctx.count("rendered.excerpt_checked")
     pos = loc.start_position
     if prefix:
         ctx.count("with_start_position")
@@ -296,6 +287,15 @@ def check(ctx, gmon, g, case, name, kind, parser, inp, e, prefix="", via_file=Fa
         if (loc.line, loc.column) != (wl, wc):
             ctx.violation("wrong-line-column", case, "reported %s:%s, position %d is %d:%d" % (loc.line, loc.column, want_pos, wl, wc))
             return
+    if isinstance(inp, str) and not via_file and loc.start_position is not None and loc.start_position < len(inp):
+        # (at the end of the input the excerpt shows the last line there is, which after a
+        # trailing newline is not the - empty - line the position belongs to: not judged)
+        bad = excerpt_mismatch(msg, inp, loc)
+        if bad:
+            ctx.violation("rendered-excerpt-does-not-show-the-position", case, bad)
+            return
+        if bad is not None:
+            ctx.count("rendered.excerpt_checked")
     eof = want_pos == len(inp)
     says_eof = "end of file" in err.message
     ctx.count("message.eof" if eof else "message.not_eof")
